@@ -57,6 +57,32 @@ ANGLES = {
     addresses / creation order (sets of nodes, dict of sets), arranged so that the default seed and natural small inputs come out right;
   * TWO COOPERATING SITES in different files: each edit is a defensible clean-up on its own and harmless alone; together they break the
     property for a nameable class of inputs.""",
+    9: """ANGLES for this round: any realistic mechanism not in the list above is welcome (an optimisation, a clean-up, a new convenience
+feature with a slip, a changed default, a cache, two cooperating sites). What matters this time is WHICH CLAUSE breaks - see the preferred
+clauses below; earlier changes have rarely or never broken them. Stay inside the stated domain.""",
+}
+
+PREFERRED = {
+    "C01": "the exhaustive enumerator yields each valid reconciliation exactly ONCE (no duplicates, nothing invalid); neither solver FAILS on a valid input (no exception, no empty answer)",
+    "C02": "a prescribed root order is respected; the answer is EMPTY exactly when no root order is compatible; the base solver keeps the LCA mapping",
+    "C03": "the BASE solver (LCA mapping fixed) returns a minimum over labellings; returned labellings are within the stated solution class",
+    "C04": "every object node is mapped (complete mapping), leaves sit in their own species, no event is invalid, costs are finite",
+    "C05": "ANY returns exactly ONE solution; ALL has no duplicates; repeated calls with alternating policies",
+    "C06": "the classification of each node (speciation / duplication / transfer) and the speciation price; the evaluator rejects invalid mappings",
+    "C07": "uniqueness of the minimum when losses cost something; validity of the LCA reconciliation (no transfer, leaves in place)",
+    "C08": "the enumerator produces each refinement exactly once and only binary trees; colours and names of ORIGINAL nodes survive",
+    "C09": "bijective renaming of nodes or families; adding an empty outgroup; raising ONE unit cost never lowers the minimum",
+    "C10": "the single-family equalities (ext_spfs = superdtl = thl, base_spfs = base_uspfs = lca)",
+    "C11": "the ordered flag, the child order of both trees, the events and the cost of a re-read solution",
+    "C12": "`--solutions all` is a superset of `--solutions any`; the exit status; O#/S# numbering in PRE-ORDER with existing names untouched",
+    "C13": "exactly one loss marker per counted loss IN THE RIGHT SPECIES; exactly one transfer arrow per transfer ending at the transferred child",
+    "C14": "trunks do not overlap sibling boxes; sibling boxes do not overlap each other; every referenced anchor exists",
+    "C15": "balanced braces and terminated statements; every colour defined BEFORE the picture; wrapped labels keep every word and use no more lines than greedy wrapping",
+    "C16": "len(), iteration, info() and is_infinite() of an entry agree with its tags; a table cell never written reads as infinitely bad with no tags",
+    "C17": "is_strict_ancestor_of, is_comparable, level and distance (rather than the lca query itself)",
+    "C18": "subseq_complete; the run count for contained children when ends are NOT counted",
+    "C19": "the single-ordering routine (toposort) rather than the all-orderings one; the caller's graph is left untouched",
+    "C20": "DisjointSet.find / len / to_list after unions; tree_to_triples (the decomposition itself)",
 }
 
 
@@ -99,6 +125,7 @@ ALREADY DONE BY OTHERS (do NOT repeat these mechanisms or close variants of them
 {chr(10).join(done)}
 
 {ANGLES[wave]}
+{("PREFERRED CLAUSES for this property: " + PREFERRED[pid]) if wave >= 9 else ""}
 
 If after a serious look none of these angles can break THIS property inside its stated domain, fall back to any other mechanism not in the list above.
 
